@@ -21,7 +21,8 @@ from vf.lib import c12_formats as F
 from coba.context import CobaContext, NullLogger, MemoryCacher
 from coba.pipes.sources import HttpSource, DiskSource
 from coba.pipes.sinks import DiskSink
-from coba.environments.supervised import CsvSource, ArffSource
+from coba.environments.supervised import CsvSource, ArffSource, LibSvmSource, ManikSource
+from coba.pipes.readers import CsvReader, ArffReader, LibsvmReader, ManikReader
 
 # ------------------------------------------------------------------------------------------------ alphabets
 SYM = ['a', ',', 'é', '€', '\n', '\r\n']           # byte-delivery alphabet (1,1,2,3,1,2 bytes)
@@ -54,6 +55,33 @@ SVM_LABELS = [['1'], ['0'], ['-1'], ['2.5'], ['1', '3'], ['a']]
 XSYM = ['a', 'é', '\n', '\r\n']                   # byte-delivery alphabet used together with ONE of F.LINESEPS
 EXO_LINES = [t.replace('x', x) for x in F.LINESEPS for t in ('x', 'ax', 'xa', 'axa', 'éx€')] + ['', 'a']
 FILE_CELLS = ['a', 'p\u2028q', 'p\u2028,q', 'a b', None]
+# ---- re-use of ONE reader / source object over several reads (tables A, B, A)
+RU_CSV_CELLS = ['a', '1', 'a,b', 'x;y', "it's", None]
+RU_CSV_OPTS = [{'header': h, 'delim': d, 'q': qc} for qc in ('"', "'") for d in (',', '\t', ';') for h in (False, True)]
+
+
+def _ru_csv_tables():
+    c = RU_CSV_CELLS
+    return [[[x]] for x in c] + [[[x, y]] for x in c for y in c] + [[[x], [y]] for x in c for y in c]
+
+
+def _ru_arff_tables():
+    S, N, M = {'kind': 'string'}, {'kind': 'numeric'}, {'kind': 'nominal', 'levels': ['a', 'b']}
+    sc, nc, mc = ['a', "it's", 'say "x"', 'a,b', None], ['1', None], ['a', 'b']
+    out = []
+    for specs, alphas in (((S,), (sc,)), ((N, S), (nc, sc)), ((M, S), (mc, sc)), ((S, S), (sc, sc))):
+        cols = [dict(x, name=f'c{i}') for i, x in enumerate(specs)]
+        for cells in itertools.product(*alphas):
+            for sparse in (False, True):
+                out.append({'sparse': sparse, 'cols': cols, 'rows': [list(cells)]})
+    return out
+
+
+def _ru_svm_tables():
+    fm = [[[i + 1, x] for i, x in enumerate(t) if x is not None] for t in itertools.product([None, '1', '-2.5'], repeat=2)]
+    return [[{'labels': l, 'feats': f}] for l in (['1'], ['1', '3'], ['a']) for f in fm]
+
+
 SPLIT = 3000          # a group larger than this is split by its leading cells (load balance over 16 shards)
 
 
@@ -134,6 +162,7 @@ class C12(Check):
         'LibSVM/Manik rows without a label are dropped by coba by (pinned) design and are outside the alphabet; labels are compared as the written strings',
         'CSV cells are compared as strings (CsvReader is untyped); missing = empty field; cells with leading/trailing blanks or embedded line breaks are outside the alphabet',
         'a nominal declaration that repeats a level is not valid ARFF: it may be rejected; if accepted the cells must carry a duplicate-free list of exactly the declared levels (order not constrained) with matching as_int/as_onehot',
+        'reader / source objects (CsvReader with delimiter , tab ; x quotechar x has_header, ArffReader, LibsvmReader, ManikReader, CsvSource/ArffSource/LibSvmSource/ManikSource on a rewritten file) are read three times on tables A, B, A; every read must give the table it was given',
         'every returned row is read through every access path (list(row), row[i], row[name]; sparse: items() and row[key]) and the paths must agree; rows are materialised in file order (lazy access order is C13)',
     ]
     TECHNIQUE = 'bounded-exhaustive enumeration of texts x encodings x chunk sizes and of tables x dialect variants on the real readers/sources vs. plain-Python reference writers'
@@ -232,6 +261,16 @@ class C12(Check):
                 for name in NAMES:
                     yield {'part': 'csv', 'header': True, 'v': v, 'nrows': 1, 'ncols': 2, 'alpha': 'small', 'prefix': [], 'names': [name, 'c1']}
                     yield {'part': 'csv', 'header': True, 'v': v, 'nrows': 1, 'ncols': 2, 'alpha': 'small', 'prefix': [], 'names': ['c0', name]}
+        # ---- ONE reader / source object read three times (tables A, B, A): nothing of an earlier read may survive
+        for via in ('reader', 'source'):
+            for oi in range(len(RU_CSV_OPTS)):
+                for a in range(len(_ru_csv_tables()) if via == 'reader' else 12):
+                    yield {'part': 'reuse', 'kind': 'csv', 'via': via, 'opt': oi, 'a': a}
+            for a in range(len(_ru_arff_tables()) if via == 'reader' else 16):
+                yield {'part': 'reuse', 'kind': 'arff', 'via': via, 'opt': 0, 'a': a}
+            for kind in ('libsvm', 'manik'):
+                for a in range(len(_ru_svm_tables()) if via == 'reader' else 8):
+                    yield {'part': 'reuse', 'kind': kind, 'via': via, 'opt': 0, 'a': a}
         # ---- LibSVM / Manik
         for v in self._simple_variants(F.SVM_VARIANT_VALUES):
             for manik in (False, True):
@@ -439,6 +478,117 @@ class C12(Check):
         acc.evaluations += k - 1
         acc.count('file_tables', k); acc.count('file_tables_with_linesep', nt); acc.count('file_tables_violating', bad)
         if nt: acc.mark_nontrivial()
+
+    # -------------------------------------------------------------------------------------------- re-used reader / source objects
+    def _ru_make(self, d, path):
+        kind, via = d['kind'], d['via']
+        if kind == 'csv':
+            o = d['opts']
+            kw = {}
+            if o['delim'] != ',': kw['delimiter'] = o['delim']
+            if o['q'] != '"': kw['quotechar'] = o['q']
+            return CsvReader(has_header=o['header'], **kw) if via == 'reader' else CsvSource(path, has_header=o['header'], **kw)
+        if kind == 'arff': return ArffReader() if via == 'reader' else ArffSource(path)
+        if kind == 'libsvm': return LibsvmReader() if via == 'reader' else LibSvmSource(path)
+        return ManikReader() if via == 'reader' else ManikSource(path)
+
+    def _ru_read(self, d, obj, t, path):
+        """One read of table t through obj: None | (mode, text)."""
+        kind = d['kind']
+        if kind == 'csv':
+            o = d['opts']
+            names = [f'c{j}' for j in range(len(t[0]))]
+            lines = F.csv_lines(names, t, o['header'], dict(F.DEFAULT_CSV_V, delim=o['delim'], q=o['q']))
+        elif kind == 'arff':
+            lines = F.arff_lines(t['cols'], t['rows'], t['sparse'], F.variant())
+        else:
+            lines = F.svm_lines(t, kind == 'manik', F.DEFAULT_SVM_V)
+        try:
+            if d['via'] == 'source':
+                with open(path, 'wb') as f: f.write(''.join(l + '\n' for l in lines).encode('utf-8'))
+                rows = obj.read()
+            else:
+                rows = obj.filter(iter(lines))
+            if kind == 'csv': r = F.csv_compare(names, t, o['header'], F.csv_rows_observed(list(rows), o['header']))
+            elif kind == 'arff': r = F.arff_compare(t['cols'], t['rows'], t['sparse'], [F.observe_row(x, t['sparse']) for x in rows])
+            else: r = F.svm_compare(t, [(dict(x[0]), list(x[1])) for x in rows])
+        except Exception as e:   # noqa
+            return ('raises ' + type(e).__name__, f'{e!r}'[:160] + f' <- {lines}')
+        return None if r is None else (r[0], r[1] + f' <- {lines}')
+
+    def _ru_eval(self, d):
+        """None | (when, mode, text): when = 'later read of a re-used object' if a fresh object reads that table correctly."""
+        path = self._path(False) if d['via'] == 'source' else None
+        try:
+            obj = self._ru_make(d, path)
+            for k, t in enumerate(d['tables']):
+                r = self._ru_read(d, obj, t, path)
+                if r is None: continue
+                fresh = self._ru_read(d, self._ru_make(d, path), t, path)
+                if fresh is not None and fresh[0] == r[0]: return ('any read', r[0], r[1])
+                return ('later read of a re-used object' if k else 'first read', r[0], f'read #{k + 1}: ' + r[1])
+            return None
+        finally:
+            if path and os.path.exists(path): os.unlink(path)
+
+    @staticmethod
+    def _ru_candidates(d):
+        ts = d['tables']
+        for i in range(len(ts)):
+            if len(ts) > 1: yield dict(d, tables=ts[:i] + ts[i + 1:])
+        if d['via'] == 'source': yield dict(d, via='reader')
+        if d['kind'] == 'csv':
+            o = d['opts']
+            if o['header']: yield dict(d, opts=dict(o, header=False))
+            if o['q'] != '"': yield dict(d, opts=dict(o, q='"'))
+            if o['delim'] == ';': yield dict(d, opts=dict(o, delim='\t'))
+            if o['delim'] != ',': yield dict(d, opts=dict(o, delim=','))
+            for i, t in enumerate(ts):
+                for r_i, r in enumerate(t):
+                    for j, x in enumerate(r):
+                        if x != 'a': yield dict(d, tables=ts[:i] + [t[:r_i] + [r[:j] + ['a'] + r[j + 1:]] + t[r_i + 1:]] + ts[i + 1:])
+
+    def _ru_one(self, d, acc, res=None):
+        if res is None: res = self._ru_eval(d)
+        if res is None:
+            acc.outcome(f"{d['kind']} {d['via']} re-used ok"); return False
+        sig = res[:2]
+        small = shrink(d, self._ru_candidates, lambda c: (self._ru_eval(c) or (None, None))[:2], sig)
+        feat = []
+        if small['kind'] == 'csv':
+            o = small['opts']
+            if o['delim'] != ',': feat.append('delimiter=' + ('tab' if o['delim'] == '\t' else o['delim']))
+            if o['q'] != '"': feat.append('quotechar=single')
+            if o['header']: feat.append('has_header')
+            feat += sorted({'cell:' + F.vclass(x) for t in small['tables'] for r in t for x in r if F.vclass(x) != 'plain'})
+        acc.outcome(f"{d['kind']} re-used {sig[0]} {sig[1]}")
+        acc.violation(f"{small['kind']} {small['via']} object re-used|{sig[0]}: {sig[1]}|{' + '.join(feat) or 'default options'}", self._ru_eval(small)[2],
+                      dict(small, part='reuse1'), order=(6, len(small['tables']), len(feat), case_hash(small)))
+        return True
+
+    def _run_reuse1(self, w, acc):
+        self._ru_one({k: w[k] for k in ('kind', 'via', 'tables') + (('opts',) if 'opts' in w else ())}, acc)
+
+    def _run_reuse(self, case, acc):
+        kind = case['kind']
+        tables = _ru_csv_tables() if kind == 'csv' else _ru_arff_tables() if kind == 'arff' else _ru_svm_tables()
+        A = tables[case['a']]
+        k = bad = 0
+        seen = set()
+        for b, B in enumerate(tables):
+            if case['via'] == 'source' and b >= 24: break
+            d = {'kind': kind, 'via': case['via'], 'tables': [A, B, A]}
+            if kind == 'csv': d['opts'] = RU_CSV_OPTS[case['opt']]
+            k += 1
+            res = self._ru_eval(d)
+            if res is None:
+                acc.outcome(f'{kind} {case["via"]} re-used ok'); continue
+            if res[:2] in seen: bad += 1; continue
+            seen.add(res[:2])
+            if self._ru_one(d, acc, res): bad += 1
+        acc.evaluations += k - 1
+        acc.count('reuse_sequences', k); acc.count('reuse_sequences_violating', bad)
+        acc.mark_nontrivial()
 
     def _run_bytes1(self, w, acc):
         raw = w['text'].encode('utf-8')
